@@ -7,6 +7,7 @@
   that is what `meaning τ` says.)
 -/
 import CC.Simd.Proof.C13Aux
+import CC.Simd.SrcX86
 namespace CC.Thm.C13
 open CC CC.Simd CC.Thm.C12 CC.Simd.BytesLaws
 
@@ -98,6 +99,17 @@ theorem storage_views (b : Backend) :
     show [lane32 (ofLeBytes 128 (List.take 16 _)) 0, lane32 (ofLeBytes 128 (List.take 16 _)) 1,
       lane32 (ofLeBytes 128 (List.take 16 _)) 2, lane32 (ofLeBytes 128 (List.take 16 _)) 3] = _
     simd_leaf
+
+/-- **Source tie, x86 backend (data movement).**  The hand-written `to_lanes` / `from_lanes`, `extract` / `insert` (one
+    arm per index literal; the default arm diverges), `unsafe_read_le/be`, `write_le/be` (with their length assertions),
+    `transpose4`, `to_scalars` of `u32x4_sse2`, `u64x2_sse2`, `u128x1_sse2`, `u64x4_sse2`, `u32x4x2_avx2`, `u32x4x4_avx2`
+    EQUAL the translation of `sse2.rs` regenerated on every run (`CC.Gen.SimdX86Src`), for every `S3` / `S4` flag
+    combination that selects a different impl; `Store::unpack`, `new`, the `From` conversions between the vector types
+    and the storage unions are the identity on the storage bits, and the views of `vec128/256/512_storage` (mod.rs:
+    `impl_into!`, `From<[u32; 4]>`, `new128` / `split128`) are little-endian word / lane packing — the single-carrier
+    reading the model rests on (`CC.Src.X86MoveTie`, lean/CC/Simd/SrcX86.lean). -/
+theorem source_x86_match : CC.Src.X86MoveTie ∧ CC.Gen.SimdX86Src.simdx86_errors = [] :=
+  ⟨CC.Src.src_x86_move, CC.Src.src_x86_word.clean⟩
 
 /-! ### non-vacuity -/
 example : OpK.readLe ∈ provided .sse2 .u32x4x4 := by decide
